@@ -1668,8 +1668,24 @@ func RunSProgram(p SProgram) (*SExec, *Fail, error) {
 	if err != nil {
 		return nil, nil, err
 	}
-	if f := x.Init(); f != nil {
-		return x, f, nil
+	// The fault-free bring-up is repeated on a fresh stack before its failure is
+	// reported: with the monitor's pings on, a machine that is busy enough to hold a
+	// ping back for 2 s makes the controller drop a healthy replica (seen once, in a
+	// thorough run at three times the machine's capacity); a defect in the bring-up
+	// path fails every time.
+	for attempt := 0; ; attempt++ {
+		f := x.Init()
+		if f == nil {
+			break
+		}
+		if attempt == 2 {
+			return x, f, nil
+		}
+		x.Destroy()
+		if x, err = NewSExec(p); err != nil {
+			return nil, nil, err
+		}
+		x.Labels["init:repeated"]++
 	}
 	for i, op := range p.Ops {
 		if f := x.Step(i, op); f != nil {
